@@ -26,8 +26,8 @@ class BaseMQTTGateway(Gateway):
             "/+/+/3/+/+",
         ]
         self.tasks.transport.handle_subscription(init_topics)
-        if not self.tasks.persistence:
-            return
+        # Also subscribe for the children that are already known, restored from
+        # persistence or presented before the connection to the broker was renewed.
         topics = [
             f"/{sensor.sensor_id}/{child.id}/{msg_type}/+/+"
             for sensor in self.sensors.values()
